@@ -294,6 +294,11 @@ def engine_projection(ctx, results, what_checks):
                 if p in ci and subtree(impl["tree"], p) != subtree(model["tree"], p):
                     probs.append(f"replacement at {'.'.join(map(str,p))} differs from the instantiated '+' pattern")
                     break
+                if impl["trace"] == model["trace"] and not covered(p, ci) and not any(covered(q, [p]) for q in ci):
+                    # same changes matched at the same number of sites, yet nothing changed at or below this site
+                    probs.append(f"the matched site at {'.'.join(map(str,p))} was left unchanged although its instantiated "
+                                 f"replacement is admissible there")
+                    break
         if "outside" in what_checks and ci is not None and cm is not None:
             extra = [p for p in ci if not covered(p, cm)]
             if extra:
@@ -890,6 +895,15 @@ MISFIT = [
      "package a\n\nfunc f() {\n\tif v := foo(\"a\", 1); v != nil {\n\t}\n\tfor range foo(\"b\", 2) {\n\t}\n}\n"),
     ("@@\nvar x expression\n@@\n-foo(x)\n+[]int{x}\n",
      "package a\n\nfunc f() {\n\tif len(foo(1)) > 0 {\n\t}\n\tif foo(2)[0] > 0 {\n\t}\n}\n"),
+    # the same kind of rewrite together with an import edit that changes the shape of the import block
+    ("@@\nvar x expression\n@@\n-import \"os\"\n\n-foo(x)\n+T{x}\n",
+     "package a\n\nimport (\n\t\"fmt\"\n\t\"os\"\n)\n\nvar _ = fmt.Sprint\n\nfunc f() {\n\tif foo(1) == y {\n\t}\n}\n"),
+    ("@@\nvar x expression\n@@\n-import \"os\"\n\n-foo(x)\n+T{x}\n",
+     "package a\n\nimport (\n\t\"os\"\n)\n\nfunc f() {\n\tfor foo(1) != nil {\n\t}\n}\n"),
+    ("@@\nvar x expression\n@@\n+import \"io\"\n\n-foo(x)\n+io.T{x}\n",
+     "package a\n\nfunc f() {\n\tswitch foo(1) {\n\t}\n}\n"),
+    ("@@\nvar x expression\n@@\n-import \"os\"\n+import \"io\"\n\n-os.foo(x)\n+io.T{x}\n",
+     "package a\n\nimport \"os\"\n\nfunc f() {\n\tif os.foo(1) == y {\n\t}\n}\n"),
 ]
 
 def emitted_parse_check(ctx, contents):
@@ -921,6 +935,10 @@ FILE_DECORATIONS = [
     ("generated-header", lambda s: "// Code generated by tool. DO NOT EDIT.\n\n" + s),
     ("test-package", lambda s: s.replace("package a", "package a_test", 1)),
     ("main-package", lambda s: s.replace("package a", "package main", 1) + "\nfunc main() {}\n\nfunc init() {}\n"),
+    ("import-group-of-one", lambda s: _after_package(s, "import (\n\t\"fmt\"\n)\n\nvar _ = fmt.Sprint\n")),
+    ("import-group-of-two", lambda s: _after_package(s, "import (\n\t\"fmt\"\n\t\"os\"\n)\n\nvar _, _ = fmt.Sprint, os.Exit\n")),
+    ("import-two-declarations", lambda s: _after_package(s, "import \"fmt\"\nimport \"os\"\n\nvar _, _ = fmt.Sprint, os.Exit\n")),
+    ("import-empty-group", lambda s: _after_package(s, "import ()\n")),
 ]
 
 @prop("C07")
@@ -1735,7 +1753,13 @@ def c13(ctx):
             l2, w2 = decorated(sub[(i * 7 + 3) % len(sub)])
             sep = [""] if rng.random() < 0.7 or not lines[-1].startswith("#") else []
             if not sep:
-                w2 = ["after the body"] + w2
+                # every '#' line of the unbroken run that ends the first change stands directly above the second header
+                run = []
+                for l in reversed(lines):
+                    if not l.strip().startswith("#"):
+                        break
+                    run.insert(0, re.sub(r"^\s*#", "", l, count=1).strip())
+                w2 = run + w2
             lines = lines + sep + l2
             wants.append(w2)
         fcs.append({"id": f"d{i}", "patch": "\n".join(lines) + "\n", "want": wants})
@@ -1785,6 +1809,22 @@ TRUNC = ["-func", "-func (", "-foo(func(", "+func() { var x int }", "-type", "-v
          "-a.", "-[]", "-struct {", "-map[", "-\"unterminated", "-'", "-`raw", "-/* comment", "-import", "-import (", "-package", "-func (r", "-func f(a, ...",
          "-go", "-defer", "-return ...", "-case x:", "-{", "-}", "-)", "-...", "-... ...", "-x...", "-...x", "-@", "-#", "-func f[", "-func f[T any", "-type T[", "-<-"]
 
+# complete pattern bodies, one per syntactic shape the "..." scanner has to walk through; every byte prefix of each is a case
+RICH = ["-func Keys[S ~[]E, E any](s S, f func(E) bool) (out []E, err error) { return nil, nil }",
+        "-func Map[K comparable, V map[K][]int](m V, ...) [4]V { ... }",
+        "-func (r *G[K, V]) Get(k K, opts ...Option) (V, bool) { ... }",
+        "-func f(a, b int, fn func(x int, ...) (int, error), ch <-chan struct{ X [2]int }) { for ... { ... } }",
+        "-type T[K comparable, V any] struct { m map[K][]V `json:\"m\"`; f func(...) }",
+        "-var x = map[string][]func(int, ...string) error{\"a\": nil, ...}",
+        "-x := []struct{ a, b int }{{1, 2}, ...}[0].a + f(g(h(...), ...), ...)",
+        "-select { case v := <-ch: foo(v, ...); default: ... }",
+        "-switch v := x.(type) { case []int, map[K]V: ...; case interface{ M(...) }: foo(...) }",
+        "-L: for i, v := range f(...) { if v { continue L }; go func(...) { ... }(i, ...) }",
+        "-const ( a = iota; b [3]int = [...]int{1, 2, 3}[0] )",
+        "-defer func() { recover(); ... }()",
+        "-import ( \"fmt\"; x \"os\" )\n-foo(...)",
+        "-package p\n-func (T) M(...) (..., error) { return ..., nil }"]
+
 def mutate_bytes(rng, s):
     b = bytearray(s.encode())
     for _ in range(rng.randint(1, 3)):
@@ -1818,6 +1858,9 @@ def c08(ctx):
         cases.append({"id": f"truncp{k}", "patches": ["@@\n@@\n-foo(1)\n+" + t[1:] + "\n"], "src": "package a\n\nfunc f() { foo(1) }\n"})
     for k, (p, s) in enumerate(ILL_TYPED):
         cases.append({"id": f"ill{k}", "patches": [p], "src": s})
+    for k, t in enumerate(RICH):
+        for cut in range(2, len(t) + 1):
+            cases.append({"id": f"rich{k}_{cut}", "patches": ["@@\n@@\n" + t[:cut] + "\n"], "src": "package a\n\nfunc f() { foo(1) }\n"})
     for i, c in enumerate(base):
         cases.append({"id": f"gen{i}", "patches": c["patches"], "src": c["src"]})
     nb = 40 if ctx.tier == "quick" else 1500
@@ -1905,6 +1948,10 @@ def c08(ctx):
     for k, t in enumerate(TRUNC):
         acases.append({"id": f"at{k}", "patch": t[1:]})
         acases.append({"id": f"atn{k}", "patch": t[1:] + "\n"})
+    for k, t in enumerate(RICH):
+        body = "\n".join(l[1:] for l in t.split("\n")) + "\n"
+        for cut in range(1, len(body) + 1):
+            acases.append({"id": f"ar{k}_{cut}", "patch": body[:cut]})
     for i, c in enumerate(base[: (60 if ctx.tier == "quick" else 2000)]):
         for j, side in enumerate(sides(c["patches"][0])):
             acases.append({"id": f"as{i}_{j}", "patch": side})
@@ -2101,10 +2148,28 @@ def sig_crlf_diff(sig, what, payload):
     return bool(probs) and all("CRLF-ORIGINAL" in p for p in probs)
 
 # --- C09 -------------------------------------------------------------------
+def unstable_intermediate(harness, chain, src):
+    """True when the source tree or an intermediate tree of the combined run is not a fixed point of print + re-parse"""
+    d = common.scratch("stable")
+    pth = os.path.join(d, "in.jsonl")
+    with open(pth, "w") as f:
+        f.write(json.dumps({"id": "s", "patches": chain, "chain": chain, "src": src}) + "\n")
+    try:
+        r = subprocess.run([harness, "stable", "-inputs", pth], stdout=subprocess.PIPE, stderr=subprocess.PIPE, text=True, timeout=60)
+        return r.stdout.strip() == "0"
+    except Exception:
+        return False
+    finally:
+        shutil.rmtree(d, ignore_errors=True)
+
 @signature("paren-in-later-minus")
 def sig_paren_minus(sig, what, payload):
     chain = (payload.get("input") or {}).get("chain") or []
     src = (payload.get("input") or {}).get("src") or ""
+    # semantic form of the finding: the tree a later change is matched against in the combined run is not what a separate
+    # run would parse from the printed intermediate file
+    if len(chain) > 1 and payload.get("harness") and unstable_intermediate(payload["harness"], chain, src):
+        return True
     # the source itself has a parenthesised condition in an if/for/switch header: go/printer strips those parentheses
     # (stripParens), so a metavariable bound to the condition is "(e)" in memory and "e" after re-parsing
     if len(chain) > 1 and re.search(r"(?m)^\s*(\}\s*else\s+)?(if|for|switch)\b[^\n{]*?(^|[;\s])\((?!\)).*\)\s*(;[^\n{]*)?\{\s*(//.*|/\*.*)?$", src):
@@ -2219,6 +2284,11 @@ def c09(ctx):
     todo.append((dict(F7_WITNESS), "flags"))
     todo.append(({"id": "f16", "chain": ["@@\nvar f identifier\n@@\n func f(...) {\n-  ...\n }\n", "@@\nvar x expression\n@@\n-x == nil\n+nil == x\n"],
                   "src": "package a\n\nfunc g() bool { return x == nil }\n\nfunc f() {\n\ta(nil, // c\n\t)\n}\n"}, "flags"))
+    # witnesses of repaired defects
+    cpath = os.path.join(VERIF, "corpus", "C09", "chains.json")
+    if os.path.exists(cpath):
+        for w in json.load(open(cpath)):
+            todo.append(({"id": w["id"], "chain": w["chain"], "src": w["src"]}, w.get("how", "flags")))
     # a chain with a failing step
     todo.append(({"id": "failstep", "chain": ["@@\nvar x expression\n@@\n-foo(x)\n+bar(x)\n", "@@\nvar x expression\n@@\n-bar(x)\n+baz.x\n"],
                   "src": "package a\n\nfunc f() {\n\tfoo(g(1))\n}\n"}, "flags"))
@@ -2232,7 +2302,7 @@ def c09(ctx):
         ctx.count("load:" + how)
         ctx.nontrivial.add(json.dumps(c["chain"]) + c["src"])
         if problem:
-            ctx.violation(problem, {"input": {"chain": c["chain"], "src": c["src"], "given_as": how},
+            ctx.violation(problem, {"input": {"chain": c["chain"], "src": c["src"], "given_as": how}, "harness": ctx.harness,
                                     "combined": cb[-800:], "chained": sb[-800:],
                                     "reproduce": "gopatch -p c0.patch -p c1.patch ... a.go   versus   gopatch -p c0.patch a.go; gopatch -p c1.patch a.go; ..."})
 
